@@ -1292,7 +1292,11 @@ class Quaternion(np.ndarray):
         q**a : numpy.ndarray
             Quaternion :math:`\\mathbf{q}` to the power of ``a``
         """
-        return np.e**(a*self.logarithm)
+        log_qa = a*self.logarithm
+        t = np.linalg.norm(log_qa[1:])
+        if t == 0.0:
+            return np.e**log_qa[0]*np.array([1.0, 0.0, 0.0, 0.0])
+        return np.e**log_qa[0]*np.array([np.cos(t), *(log_qa[1:]/t*np.sin(t))])
 
     def is_pure(self) -> bool:
         """
